@@ -269,14 +269,14 @@ def compare(schema, dump, chk=None):
                 if k == 'explicit':
                     wat = 'redefining' if red else 'explicit'
                     if ga.get('at') != wat or ga.get('derived') == 'T':
-                        out.append(('attr|%s|attribute kind differs' % ('explicit re-declaration to %s' % dshape if red else 'explicit'),
+                        out.append(('attr|%s|attribute kind differs' % ('explicit re-declaration to %s' % dshape if red else 'explicit attribute, %s' % dshape),
                                     '%s.%s: want %s, got AttrType %s Derived()=%s' % (ent.name, a.name, 're-declared (AttrType_Redefining)' if red else 'explicit',
                                                                                        ga.get('at'), ga.get('derived'))))
                     if red:
                         seen(where, 're-declared', dshape)
                 else:
                     if ga.get('at') != 'deriving' or ga.get('derived') != 'T':
-                        out.append(('derived-attr|%s|attribute kind differs' % ('derived re-declaration to %s' % dshape if red else 'new'),
+                        out.append(('derived-attr|%s|attribute kind differs' % ('derived re-declaration to %s' % dshape if red else 'new derived attribute, %s' % dshape),
                                     '%s.%s: want derived, got AttrType %s Derived()=%s' % (ent.name, a.name, ga.get('at'), ga.get('derived'))))
                     seen(where, 'deriving', dshape if red else False)
                 o2 = []
@@ -304,7 +304,7 @@ def compare(schema, dump, chk=None):
                     out.append(('inverse|%s|inverted entity/attribute differs' % ('aggregate' if i.akind else 'single'),
                                 '%s.%s: want %s.%s, got %s.%s' % (ent.name, i.name, i.entity, i.attr, x.get('inv_entity'), x.get('inv_attr'))))
                 if x.get('at') != 'inverse':
-                    out.append(('inverse|any|attribute kind differs', '%s.%s: AttrType %s' % (ent.name, i.name, x.get('at'))))
+                    out.append(('inverse|%s|attribute kind differs' % ('aggregate' if i.akind else 'single'), '%s.%s: AttrType %s' % (ent.name, i.name, x.get('at'))))
                 t = M.AGG(i.akind, M.ENT(i.entity), i.lo, i.hi) if i.akind else M.ENT(i.entity)
                 o2 = []
                 cmp_type(schema, t, x.get('type'), o2, 'inverse')
